@@ -13,7 +13,7 @@
 import ast as _ast
 
 from .common import *   # noqa: F401,F403
-from . import frames, C11, C17, C07, C20
+from . import frames, C11, C17, C07, C20, reader
 from pyvc.values import real_val
 
 XYZ_READERS = {
@@ -249,7 +249,9 @@ def task_backbone_two_runs(pr, repo):
 def run(pr, repo):
     tasks = [(task_invariance, ()), (C11.task_cell_lemma, ()), (C11.task_offsets, ()), (C11.task_check_distance, ()), (C11.task_plumbing, ()),
              (C11.task_boxes_pair, ('S', 'S', False, (0,))), (C17.task_equivariance, ()), (C17.task_add_proton, ()),
-             (C17.task_orthogonal, ()), (task_group_centres, ()), (C20.task_rotation, (), 'support'), (task_backbone_two_runs, ())]
+             (C17.task_orthogonal, ()), (task_group_centres, ()), (C20.task_rotation, (), 'support'), (task_backbone_two_runs, ()),
+             # which nitrogen is an N-terminus (3 hydrogens, frame-dependent rotamer excluded by the property) vs a backbone amide
+             (reader.task_nterm, ())]
     pr.parallel(tasks)
     C07.task_columns(pr, repo)
     ground_callsites(pr, repo)
